@@ -140,6 +140,7 @@ type LoopContract struct {
 	Modifies   []*Clause
 	Line       int
 	used       bool
+	templated  bool
 }
 
 type FuncContract struct {
@@ -157,11 +158,13 @@ type FuncContract struct {
 	File      string
 	Line      int
 	Asserts   []*Clause // "assert" hints keyed by source text (rare)
+	AllLoops  []*Clause // invariants for every loop (from templates)
 	PrivReq   []*Clause // assumed at body entry only (unfolding of an abstract predicate)
 	PrivEns   []*Clause // checked at body exit only
 	FreeEns   []*Clause // assumed at call sites, not checked against the body (listed as an assumption)
 	Template  []QVar    // for templates: the parameters a function must have
 	IsTempl   bool
+	LoopInvs  []*Clause // template: invariants added to every loop of the matched functions
 }
 
 type SpecFunc struct {
@@ -204,6 +207,10 @@ type TypeInv struct {
 type Contracts struct {
 	GhostVars   map[string]*TypeExpr
 	GhostVarPkg map[string]string
+	GhostVarAlloc map[string]bool
+	ChanNonNil map[string]bool // element types (as written) whose channels only ever carry non-nil values
+	ChanInv    map[string]*Clause // element type -> invariant over "v" (checked at sends, assumed at receives)
+	ChanInvPkg map[string]string
 	Templates   []*FuncContract
 	Funcs       map[string]*FuncContract
 	Specs       map[string]*SpecFunc // by name (global namespace; also pkg.name)
@@ -771,7 +778,7 @@ var clauseKeywords = map[string]bool{
 	"invariant": true, "ghost": true, "step": true, "exit": true, "func": true, "spec": true,
 	"lemma": true, "axiom": true, "field": true, "type": true, "noreturn": true, "allocates": true,
 	"trigger": true, "params": true, "opaque": true, "havocs": true, "maypanic": true,
-	"free": true, "ghostvar": true, "package": true, "private": true, "template": true, "framed": true, "notemplate": true,
+	"channel": true, "free": true, "functype": true, "ghostvar": true, "package": true, "private": true, "template": true, "framed": true, "notemplate": true,
 }
 
 type rawLine struct {
@@ -1026,10 +1033,48 @@ func (C *Contracts) parseStatements(pkg, path string, stmts []rawLine) (err erro
 			C.Lemmas = append(C.Lemmas, lm)
 			curLemma = lm
 			cur, curLoop = nil, nil
+		case "channel":
+			// channel <elem type> nonnil : protocol of every channel of that element type
+			f := strings.Fields(rest)
+			if len(f) < 2 {
+				return cerr(st, "expected: channel <type> nonnil | channel <type> invariant <expr over v>")
+			}
+			if C.ChanNonNil == nil {
+				C.ChanNonNil = map[string]bool{}
+				C.ChanInv = map[string]*Clause{}
+				C.ChanInvPkg = map[string]string{}
+			}
+			name := f[0]
+			if pkg != "" && strings.HasPrefix(name, "*") && !strings.Contains(name, ".") {
+				name = "*" + pkg + "." + name[1:]
+			}
+			switch f[1] {
+			case "nonnil":
+				C.ChanNonNil[name] = true
+			case "invariant":
+				txt := strings.TrimSpace(strings.SplitN(rest, " invariant ", 2)[1])
+				e, err := parseExprString(txt)
+				if err != nil {
+					return cerr(st, "%v", err)
+				}
+				C.ChanNonNil[name] = true
+				C.ChanInv[name] = &Clause{Kind: "chaninv", E: e, Text: txt, Line: st.line}
+				C.ChanInvPkg[name] = pkg
+			default:
+				return cerr(st, "expected: channel <type> nonnil | channel <type> invariant <expr over v>")
+			}
 		case "ghostvar":
 			f := strings.Fields(rest)
 			if len(f) < 2 || !strings.HasPrefix(f[0], "$") {
 				return cerr(st, "bad ghostvar declaration")
+			}
+			if f[len(f)-1] == "allocated" {
+				// every member of the set is an object that exists (a goroutine only holds locks that exist)
+				if C.GhostVarAlloc == nil {
+					C.GhostVarAlloc = map[string]bool{}
+				}
+				C.GhostVarAlloc[f[0]] = true
+				f = f[:len(f)-1]
 			}
 			toks, err := lex(strings.Join(f[1:], " "))
 			if err != nil {
@@ -1172,6 +1217,14 @@ func (C *Contracts) parseStatements(pkg, path string, stmts []rawLine) (err erro
 				return cerr(st, "%s outside func/lemma", kw)
 			}
 		case "invariant":
+			if curLoop == nil && cur != nil && cur.IsTempl {
+				c, err := mkClause(kw, true)
+				if err != nil {
+					return err
+				}
+				cur.LoopInvs = append(cur.LoopInvs, c)
+				continue
+			}
 			if curLoop == nil {
 				return cerr(st, "invariant outside loop")
 			}
@@ -1294,7 +1347,7 @@ func (C *Contracts) parseStatements(pkg, path string, stmts []rawLine) (err erro
 			case "exit":
 				cur.Exits = append(cur.Exits, c)
 			}
-		case "nopanic", "trusted", "inline", "pure", "noreturn", "allocates", "opaque", "maypanic", "framed", "notemplate":
+		case "nopanic", "trusted", "inline", "pure", "noreturn", "allocates", "opaque", "maypanic", "framed", "notemplate", "functype":
 			if cur == nil {
 				return cerr(st, "%s outside func", kw)
 			}
